@@ -38,11 +38,22 @@ def main():
         try:
             translate.run(ctx)
         except translate.TranslateError as ex:
-            # a translator no longer understands the source: the regenerated part of the model is stale, the tie is broken.
-            # keep going with the last generated Gen/ so that the search can still look for a failing input.
-            ctx.translate_error = str(ex)
-            ctx.violation("translator cannot regenerate the model from the current sources: " + str(ex)[:600],
-                          dict(kind="translator", error=str(ex)[:3000]), no_input=True)
+            # a translator no longer understands the source: the regenerated part of the model is stale, the tie is broken --
+            # for the properties whose theorems or correspondence read that part. Keep going with the last generated Gen/
+            # so that the search can still look for a failing input.
+            import re as _re
+            mods = _re.findall(r"KalignModel\.Props\.\w+", getattr(mod, "CHECKER", "")) or ["KalignModel.Props." + prop]
+            uses = translate.gen_sections_of(mods) | set(getattr(mod, "GEN_USES", ()))
+            failed = getattr(ex, "sections", None)
+            relevant = sorted(set(failed) & uses) if failed is not None else ["?"]
+            if relevant:
+                msg = "; ".join("%s: %s" % (k, failed[k]) for k in relevant) if failed is not None else str(ex)
+                ctx.translate_error = msg
+                ctx.violation("translator cannot regenerate the model from the current sources: " + msg[:600],
+                              dict(kind="translator", error=msg[:3000]), no_input=True)
+            else:
+                ctx.notes.append("translator sections %s could not be regenerated; this property's theorems and correspondence read only %s -- not a broken tie here"
+                                 % (sorted(failed), sorted(uses)))
         C.CURRENT_CTX = ctx
         rc = mod.run(ctx)
         if rc == 99:
